@@ -1,8 +1,25 @@
 """harness/corr.py — the correspondence check: run the Lean model and the implementation on the
 same cases and report where they differ."""
-import time, hashlib
+import time, hashlib, math
+from fractions import Fraction as Fr
 from .core import line_of, run_model, parse_out, compare, brief, Stats
 from . import adapters
+
+
+BI_AUTO = {'isi_profile_bi', 'isi_distance_bi', 'spike_profile_bi', 'spike_distance_bi', 'sync_profile_bi',
+           'spike_sync_bi', 'order_profile_bi', 'order_bi', 'dir_bi'}
+API_AUTO = BI_AUTO | {'isi_profile_multi', 'isi_distance_multi', 'isi_distance_matrix', 'spike_profile_multi',
+                      'spike_distance_multi', 'spike_distance_matrix', 'sync_profile_multi', 'spike_sync_multi',
+                      'spike_sync_matrix', 'order_profile_multi', 'order_multi', 'dir_values', 'dir_matrix',
+                      'filter_by_sync'}
+
+
+def is_auto(op, f):
+    return op in API_AUTO and len(f) > 2 and len(f[0]) >= 7 and f[0][0] == -1
+
+
+def auto_kw(p):
+    return [Fr(0)] + list(p[1:7])
 
 
 class Disagreement:
@@ -11,7 +28,7 @@ class Disagreement:
         self.model, self.real, self.why = model, real, why
 
     def as_dict(self):
-        return {'suite': self.suite, 'op': self.op, 'request': self.line,
+        return {'suite': self.suite, 'op': self.op, 'request': self.line, 'impl_request': line_of(self.op, self.fields),
                 'model': brief(self.model, 2000), 'implementation': brief(self.real, 2000), 'difference': self.why}
 
 
@@ -19,7 +36,22 @@ def run_cases(suite, cases, stats=None, max_dis=25, runner=None):
     """cases: iterable of (op, fields, tags). Returns dict(evaluated, distinct, disagreements, skipped)"""
     runner = runner or adapters.run_real
     cases = list(cases)
-    lines = [line_of(op, f) for op, f, _ in cases]
+    # MRTS='auto' (encoded as mrts = -1 in the keyword field of API ops): the model states which
+    # trains are pooled (`auto_thresh_sq`), the square root is taken here, and the model op is run
+    # with that threshold passed explicitly; the implementation is called with MRTS='auto'.
+    auto_ix = [k for k, (op, f, _) in enumerate(cases) if is_auto(op, f)]
+    model_fields = {}
+    if auto_ix:
+        qs = []
+        for k in auto_ix:
+            op, f, _ = cases[k]
+            qs.append(line_of('auto_thresh_sq', [auto_kw(f[0])] + [[0] if op in BI_AUTO else f[1]] + list(f[2:])))
+        for k, a in zip(auto_ix, run_model(qs)):
+            sq = parse_out(a)
+            thr = Fr(math.sqrt(float(sq[0][0]))) if not isinstance(sq, str) else Fr(0)
+            op, f, _ = cases[k]
+            model_fields[k] = [[thr] + list(f[0][1:])] + list(f[1:])
+    lines = [line_of(op, model_fields.get(k, f)) for k, (op, f, _) in enumerate(cases)]
     answers = run_model(lines)
     dis = []
     seen = set()
